@@ -43,6 +43,43 @@ class StackEval:
             return ("tuple", [self.ev(x, env, depth) for x in e.elts])
         if isinstance(e, ast.List):
             return ("list", [self.ev(x, env, depth) for x in e.elts], None)
+        if isinstance(e, (ast.GeneratorExp, ast.ListComp)) and len(e.generators) == 1 and not e.generators[0].is_async:
+            # `layer for enabled, layer in table if enabled` over a table that evaluates to a tuple of tuples
+            g = e.generators[0]
+            src = self.ev(g.iter, env, depth)
+            if src[0] in ("tuple", "list"):
+                out = []
+                ok = True
+                for item in src[1]:
+                    env2 = dict(env)
+                    if isinstance(g.target, ast.Name):
+                        env2[g.target.id] = item
+                    elif isinstance(g.target, (ast.Tuple, ast.List)) and item[0] in ("tuple", "list") and len(item[1]) == len(g.target.elts) and all(isinstance(t, ast.Name) for t in g.target.elts):
+                        for t, v_ in zip(g.target.elts, item[1]):
+                            env2[t.id] = v_
+                    else:
+                        ok = False
+                        break
+                    keep = True
+                    for cond in g.ifs:
+                        c_ = self.ev(cond, env2, depth)
+                        if c_[0] == "const":
+                            keep = keep and bool(c_[1])
+                        elif c_[0] in ("cls", "inst", "tuple", "par"):
+                            keep = keep and True
+                        else:
+                            ok = False
+                    if not ok:
+                        break
+                    if keep:
+                        out.append(self.ev(e.elt, env2, depth))
+                if ok:
+                    return ("tuple", out) if isinstance(e, ast.GeneratorExp) else ("list", out, None)
+            return ("unk", unparse(e))
+        if isinstance(e, ast.UnaryOp) and isinstance(e.op, ast.Not):
+            v_ = self.ev(e.operand, env, depth)
+            if v_[0] == "const":
+                return ("const", not v_[1])
         if isinstance(e, ast.Call) and isinstance(e.func, ast.Name) and e.func.id in ("tuple", "list") and len(e.args) == 1:
             a = self.ev(e.args[0], env, depth)
             if a[0] in ("tuple", "list"):
